@@ -7,7 +7,7 @@
    (zeros and ties allowed); any length >= 1. *)
 From Coq Require Import List Arith ZArith QArith Permutation.
 From RV Require Import Base.QB Gen.GenPairing Model.Pairing Model.StepLaw Model.Bst Model.Alias Model.Huffman Model.Table
-  Model.Inversion Model.BstAdapted Model.Factory Model.Stateful Model.BstAdaptedNd
+  Model.StatesManager Model.Inversion Model.InversionOrig Model.BstAdapted Model.Factory Model.Stateful Model.BstAdaptedNd
   Proofs.C02_StepLaw Proofs.C02_Bst Proofs.C02_Inversion Proofs.C02_Huffman Proofs.C02_BstAdapted Proofs.C02_Alias
   Proofs.C02_Table Proofs.C02_Lattice Proofs.C02_TableDraw Proofs.C02_InversionAdm Proofs.C02_Stateful Proofs.C02_Factory
   Proofs.C02_BstAdaptedNd Proofs.C02_Refuted.
@@ -23,26 +23,6 @@ Theorem C02_bst_law : forall p : list Q, (1 <= length p)%nat -> nonneg p ->
     /\ seg_nonneg (bst_segs p)
     /\ forall u, 0 <= u -> u < qsum p -> locate 0 (bst_segs p) u = Some (bst_sample (length p - 1) b u).
 Proof. exact bst_law. Qed.
-
-(* InversionMethod + StatesManager, every index 0..F admissible (1-d chains), any _max_storage >= 1:
-   in every reachable state the output for u is that of the sequential search, whatever was drawn before *)
-Theorem C02_inversion_history_free : forall (S : Type) (proj : Z -> S) (inside : S -> bool) (Fn : nat) (prob : S -> Q) (M : Z),
-  (forall i, (0 <= i <= Z.of_nat Fn)%Z -> inside (proj i) = true) -> (forall s, 0 <= prob s) -> (1 <= M)%Z ->
-  forall st, reachable proj inside (Z.of_nat Fn) prob M st -> forall u,
-    snd (inv_step proj inside (Z.of_nat Fn) prob M st u) = inv_spec proj Fn prob u.
-Proof. exact @inversion_history_free. Qed.
-
-(* ... and the sequential search is the right-closed step function with lengths prob (proj k), k = 0..F;
-   a state of probability zero is never returned for u > 0 *)
-Theorem C02_inversion_law : forall (S : Type) (proj : Z -> S) (Fn : nat) (prob : S -> Q),
-  (forall s, 0 <= prob s) ->
-  (forall u, inv_spec proj Fn prob u = match locate_r 0 (spec_segs proj Fn prob) u with
-                                       | Some i => Out (proj i) | None => Frontier end)
-  /\ (forall k, (k <= Fn)%nat -> len_of (Z.of_nat k) (spec_segs proj Fn prob) == prob (proj (Z.of_nat k)))
-  /\ seg_nonneg (spec_segs proj Fn prob)
-  /\ (forall u k, 0 < u -> prob (proj (Z.of_nat k)) == 0 -> (k <= Fn)%nat ->
-        locate_r 0 (spec_segs proj Fn prob) u <> Some (Z.of_nat k)).
-Proof. exact @inversion_law_full. Qed.
 
 (* HuffmanTree: whatever position Heap.insert computes, the final tree's leaves are a permutation of the states
    and subtract-and-descend is the step function of the leaves in in-order *)
@@ -99,26 +79,21 @@ Proof. exact table_law. Qed.
 
 (* ---- wave 2 ---- *)
 
-(* InversionMethod + StatesManager over an enumeration WITH inadmissible indices: in every reachable state
-   inv_step = locate_r over the ADMISSIBLE sub-enumeration G (right-closed intervals of lengths prob (proj i), i in G),
-   provided the restart at x == _max_storage is harmless (restart_harmless); G is exactly the admissible indices;
-   zero-probability states are never returned for u > 0.  (Without restart_harmless: C02_inversion_overflow_refuted.) *)
-Theorem C02_inversion_admissible : forall (S : Type) (proj : Z -> S) (inside : S -> bool) (F : Z) (prob : S -> Q) (M : Z),
-  (forall s, 0 <= prob s) -> (1 <= M)%Z -> (0 <= F)%Z -> restart_harmless proj inside F M ->
-  let segs := adm_segs' proj inside F prob in
-  (forall st, reachable proj inside F prob M st -> forall u,
-     snd (inv_step proj inside F prob M st u) = match locate_r 0 segs u with Some i => Out (proj i) | None => Frontier end)
-  /\ (forall i, In i (G proj inside F) <-> (0 <= i <= F)%Z /\ inside (proj i) = true)
-  /\ (forall i, In i (G proj inside F) -> len_of i segs == prob (proj i))
+(* InversionMethod + StatesManager (tree with the repair a073fcb) over ANY enumeration, with inadmissible indices,
+   any _max_storage >= 1: in every reachable state (any draw history, any number of restarts after the storage is full)
+   inv_step = locate_r over the ADMISSIBLE sub-enumeration G (right-closed intervals of lengths prob (proj i), i in G);
+   G is exactly the admissible indices of [0, F]; zero-probability states are never returned for u > 0.
+   The StatesManager half is C14's sm_step_protocol. *)
+Theorem C02_inversion_admissible : forall (S : Type) (proj : Z -> S) (outside : S -> bool) (F : Z) (prob : S -> Q) (M : Z),
+  (forall s, 0 <= prob s) -> (1 <= M)%Z -> (0 <= F)%Z ->
+  let segs := adm_segs' proj outside F prob in
+  (forall st, reachable proj outside F prob M st -> forall u,
+     snd (inv_step proj outside F prob M st u) = match locate_r 0 segs u with Some i => Out (proj i) | None => Frontier end)
+  /\ (forall i, In i (G proj outside F) <-> (0 <= i <= F)%Z /\ outside (proj i) = false)
+  /\ (forall i, In i (G proj outside F) -> len_of i segs == prob (proj i))
   /\ seg_nonneg segs
-  /\ (forall u i, 0 < u -> In i (G proj inside F) -> prob (proj i) == 0 -> locate_r 0 segs u <> Some i).
+  /\ (forall u i, 0 < u -> In i (G proj outside F) -> prob (proj i) == 0 -> locate_r 0 segs u <> Some i).
 Proof. exact @inversion_admissible_full. Qed.
-
-(* the restart is harmless when every index is admissible (1-d chains, centred square grids) or the storage never fills *)
-Theorem C02_inversion_restart_harmless : forall (S : Type) (proj : Z -> S) (inside : S -> bool) (F M : Z), (0 <= F)%Z ->
-  (forall i, (0 <= i <= F)%Z -> inside (proj i) = true) \/ (Z.of_nat (length (G proj inside F)) < M)%Z ->
-  restart_harmless proj inside F M.
-Proof. exact @restart_harmless_cases. Qed.
 
 (* TableMethod._sample_one as the code runs it (ONE 32-bit word gives the slot byte and the alias uniform):
    the number of 32-bit words sent to k is 2^32 p_k up to #{residual bytes} * #{alias intervals labelled k} <= 512 K,
@@ -211,8 +186,8 @@ Proof. exact nd_sample_compose. Qed.
 (* F-C02-6 (recorded finding, current tree): the right-closed samplers send u = 0 to the first enumerated state
    even when its probability is zero *)
 Theorem C02_inversion_zero_uniform_refuted :
-  exists st, inv_init zu_proj (fun _ => true) 1 zu_prob = Some st
-             /\ snd (inv_step zu_proj (fun _ => true) 1 zu_prob 1000000 st 0) = Out 1%Z
+  exists st, inv_init zu_proj (fun _ => false) 1 zu_prob = Some st
+             /\ snd (inv_step zu_proj (fun _ => false) 1 zu_prob 1000000 st 0) = Out 1%Z
              /\ zu_prob 1 == 0.
 Proof. exact inversion_zero_uniform_refuted. Qed.
 Theorem C02_bstadapted1d_zero_uniform_refuted :
@@ -221,13 +196,20 @@ Theorem C02_bstadapted1d_zero_uniform_refuted :
   /\ mass (ba_cell_a axis mid_arith 0) (ba_cell_b axis mid_arith 0) == 0.
 Proof. exact bstadapted1d_zero_uniform_refuted. Qed.
 
-(* F-C02-7 (recorded finding, current tree): with inadmissible indices in the enumeration (n-d grids whose origin is
-   not centred) the sampler restarts at the wrong index once the storage (_max_storage) is full: wrong law *)
-Theorem C02_inversion_overflow_refuted :
-  exists st, inv_init (fun i => i) ov_inside 3 ov_prob = Some st
-             /\ snd (inv_step (fun i => i) ov_inside 3 ov_prob 2 st (9 # 10)) = Out 2%Z
-             /\ snd (inv_step (fun i => i) ov_inside 3 ov_prob 1000000 st (9 # 10)) = Out 3%Z.
-Proof. exact inversion_overflow_refuted. Qed.
+(* F-C02-7 = F-C14-6, FIXED by a073fcb: with an inadmissible index and _max_storage = 2 the ORIGINAL code sent 9/10 to
+   state 2 instead of state 3 (historical witness on Model/InversionOrig.v); the repaired code answers 3 with any storage
+   (an instance of C02_inversion_admissible, checked by computation) *)
+Example C02_inversion_overflow_orig :
+  exists st, InvOrig.inv_init (fun i => i) ov_inside 3 ov_prob = Some st
+             /\ snd (InvOrig.inv_step (fun i => i) ov_inside 3 ov_prob 2 st (9 # 10)) = InvOrig.Out 2%Z
+             /\ snd (InvOrig.inv_step (fun i => i) ov_inside 3 ov_prob 1000000 st (9 # 10)) = InvOrig.Out 3%Z.
+Proof. exact inversion_overflow_orig. Qed.
+Example C02_inversion_overflow_repaired :
+  exists st, inv_init (fun i => i) ov_outside 3 ov_prob = Some st
+             /\ snd (inv_step (fun i => i) ov_outside 3 ov_prob 2 st (9 # 10)) = Out 3%Z
+             /\ snd (inv_step (fun i => i) ov_outside 3 ov_prob 1 st (9 # 10)) = Out 3%Z
+             /\ snd (inv_step (fun i => i) ov_outside 3 ov_prob 1000000 st (9 # 10)) = Out 3%Z.
+Proof. exact inversion_overflow_repaired. Qed.
 
 (* non-vacuity: the models compute, on a vector with a zero and a tie *)
 Example C02_nonvacuous :
@@ -240,14 +222,11 @@ Example C02_nonvacuous :
 Proof. vm_compute. repeat split. Qed.
 
 Print Assumptions C02_bst_law.
-Print Assumptions C02_inversion_history_free.
-Print Assumptions C02_inversion_law.
 Print Assumptions C02_huffman_law.
 Print Assumptions C02_alias_law.
 Print Assumptions C02_bstadapted1d_law.
 Print Assumptions C02_table_law.
 Print Assumptions C02_inversion_admissible.
-Print Assumptions C02_inversion_restart_harmless.
 Print Assumptions C02_table_draw_law.
 Print Assumptions C02_table_draw_never_zero.
 Print Assumptions C02_bst_range_nonzero.
@@ -259,5 +238,6 @@ Print Assumptions C02_bstadaptednd_bucket_law.
 Print Assumptions C02_bstadaptednd_law_partial.
 Print Assumptions C02_inversion_zero_uniform_refuted.
 Print Assumptions C02_bstadapted1d_zero_uniform_refuted.
-Print Assumptions C02_inversion_overflow_refuted.
+Print Assumptions C02_inversion_overflow_orig.
+Print Assumptions C02_inversion_overflow_repaired.
 Print Assumptions C02_nonvacuous.
